@@ -2,3 +2,464 @@
 From PM Require Import Lib.Bytes Lib.BytesFacts Lib.PyStr Lib.PyStrFacts Lib.PyStrFacts2 Http.Url Http.Chunk Http.ChunkFacts
   Http.Parser Http.Builders Http.BuildersFacts Http.Grammar.
 From Coq Require Import ZArith.
+From Coq Require Import Lia.
+
+(* ------------------------------------------------------------------------------------- *)
+(* character classes                                                                      *)
+Lemma is_hex_range x : is_hex x = true -> (48 <= x <= 57) \/ (97 <= x <= 102) \/ (65 <= x <= 70).
+Proof.
+  unfold is_hex, is_digit. intros H.
+  apply orb_true_iff in H as [H|H]; [apply orb_true_iff in H as [H|H]|];
+    apply andb_true_iff in H as [H1 H2]; apply N.leb_le in H1, H2; lia.
+Qed.
+
+Lemma is_hex_not_ws x : is_hex x = true -> is_ws x = false.
+Proof.
+  intros H. apply is_hex_range in H. unfold is_ws.
+  destruct (N.eqb_spec x 32); [lia|]. destruct (N.leb_spec 9 x); destruct (N.leb_spec x 13); try reflexivity; lia.
+Qed.
+
+Lemma is_ows_ws x : is_ows x = true -> is_ws x = true.
+Proof.
+  unfold is_ows, is_ws. intros H. apply orb_true_iff in H as [H|H]; apply N.eqb_eq in H; subst; reflexivity.
+Qed.
+
+Lemma digit_val_hex x : is_hex x = true -> digit_val 16 x = Some (hex_digit_val x).
+Proof.
+  intros H. apply is_hex_range in H. unfold digit_val, hex_digit_val, is_digit.
+  destruct H as [H|[H|H]].
+  - replace ((48 <=? x) && (x <=? 57)) with true
+      by (symmetry; apply andb_true_iff; split; apply N.leb_le; lia).
+    destruct (N.ltb_spec (x - 48) 16); [reflexivity|lia].
+  - replace ((48 <=? x) && (x <=? 57)) with false
+      by (symmetry; apply andb_false_iff; right; apply N.leb_gt; lia).
+    replace ((97 <=? x) && (x <=? 122)) with true
+      by (symmetry; apply andb_true_iff; split; apply N.leb_le; lia).
+    replace (97 <=? x) with true by (symmetry; apply N.leb_le; lia).
+    destruct (N.ltb_spec (x - 87) 16); [reflexivity|lia].
+  - replace ((48 <=? x) && (x <=? 57)) with false
+      by (symmetry; apply andb_false_iff; right; apply N.leb_gt; lia).
+    replace ((97 <=? x) && (x <=? 122)) with false
+      by (symmetry; apply andb_false_iff; left; apply N.leb_gt; lia).
+    replace ((65 <=? x) && (x <=? 90)) with true
+      by (symmetry; apply andb_true_iff; split; apply N.leb_le; lia).
+    replace (97 <=? x) with false by (symmetry; apply N.leb_gt; lia).
+    destruct (N.ltb_spec (x - 55) 16); [reflexivity|lia].
+Qed.
+
+Definition hex_step (a x : N) : N := a * 16 + hex_digit_val x.
+Lemma hexval_fold l : hexval l = fold_left hex_step l 0.
+Proof. reflexivity. Qed.
+
+Lemma parse_digits_hex l : forall acc b, forallb is_hex l = true -> (l <> [] \/ b = true) ->
+  parse_digits 16 l acc b = Some (fold_left hex_step l acc).
+Proof.
+  induction l as [|x t IH]; intros acc b Hd Hne.
+  - destruct Hne as [Hne| ->]; [congruence|reflexivity].
+  - cbn [forallb] in Hd. apply andb_true_iff in Hd as [Hx Ht].
+    cbn [parse_digits fold_left].
+    pose proof (is_hex_range _ Hx) as Hr.
+    destruct (N.eqb_spec x 95) as [E|_]; [lia|].
+    rewrite (digit_val_hex _ Hx). apply IH; [exact Ht|now right].
+Qed.
+
+(* int(b'1f  ', 16): hex digits in any case with leading zeros, optional trailing blanks *)
+Lemma int16_hex sz pad : sz <> [] -> forallb is_hex sz = true -> forallb is_ows pad = true ->
+  int16 (sz ++ pad) = Ok (Z.of_N (hexval sz)).
+Proof.
+  intros Hne Hh Hp. unfold int16, py_int.
+  assert (Hws : forall x, In x sz -> is_ws x = false).
+  { intros x Hx. apply is_hex_not_ws. rewrite forallb_forall in Hh. now apply Hh. }
+  assert (Hpw : forallb is_ws pad = true).
+  { apply forallb_forall. intros x Hx. apply is_ows_ws. rewrite forallb_forall in Hp. now apply Hp. }
+  rewrite (strip_app_ws _ _ Hws Hpw).
+  destruct sz as [|x t]; [congruence|].
+  assert (Hx : is_hex x = true) by (cbn [forallb] in Hh; now apply andb_true_iff in Hh as [? _]).
+  pose proof (is_hex_range _ Hx) as Hr.
+  destruct (N.eqb_spec x 45) as [E|_]; [lia|]. destruct (N.eqb_spec x 43) as [E|_]; [lia|].
+  change (16 =? 16) with true. cbv iota. cbn [negb]. rewrite andb_false_r.
+  destruct t as [|y t'].
+  - rewrite (parse_digits_hex [x] 0 false Hh) by (left; discriminate). reflexivity.
+  - assert (Hy : is_hex y = true).
+    { cbn [forallb] in Hh. apply andb_true_iff in Hh as [_ Hh]. now apply andb_true_iff in Hh as [? _]. }
+    apply is_hex_range in Hy.
+    destruct (N.eqb_spec y 120) as [E|_]; [lia|]. destruct (N.eqb_spec y 88) as [E|_]; [lia|].
+    rewrite andb_false_r.
+    rewrite (parse_digits_hex (x :: y :: t') 0 false Hh) by (left; discriminate). reflexivity.
+Qed.
+
+(* ------------------------------------------------------------------------------------- *)
+(* the RFC 7230 chunked grammar of Grammar.v, seen as a stream of Http/ChunkFacts.v        *)
+
+Lemma crlf_free_no_lf l : ~ In LF l -> crlf_free l.
+Proof.
+  intros H. unfold crlf_free. pose proof (split_once_crlf_no_lf l [] H) as E.
+  change (CRLF ++ []) with CRLF in E. exact E.
+Qed.
+
+Lemma forallb_In {A} (f : A -> bool) l x : forallb f l = true -> In x l -> f x = true.
+Proof. intros H Hi. rewrite forallb_forall in H. now apply H. Qed.
+
+Lemma ext_ok_no_lf e : ext_ok e = true -> ~ In LF e.
+Proof.
+  unfold ext_ok. intros H Hi. apply orb_true_iff in H as [H|H].
+  - pose proof (forallb_In _ _ _ H Hi) as C. discriminate C.
+  - apply andb_true_iff in H as [_ H]. pose proof (forallb_In _ _ _ H Hi) as C. discriminate C.
+Qed.
+
+Lemma hex_no_lf sz : forallb is_hex sz = true -> ~ In LF sz.
+Proof. intros H Hi. pose proof (forallb_In _ _ _ H Hi) as C. discriminate C. Qed.
+
+Lemma before_semi_size sz e : forallb is_hex sz = true -> ext_ok e = true ->
+  exists pad, before_semi (sz ++ e) = sz ++ pad /\ forallb is_ows pad = true.
+Proof.
+  intros Hh He. unfold before_semi.
+  assert (Hs : ~ In SEMI sz) by (intros Hi; pose proof (forallb_In _ _ _ Hh Hi) as C; discriminate C).
+  unfold ext_ok in He. apply orb_true_iff in He as [He|He].
+  - exists e. split; [|exact He].
+    rewrite split_once_byte_none; [reflexivity|].
+    intros Hi. apply in_app_or in Hi as [Hi|Hi]; [now apply Hs|].
+    pose proof (forallb_In _ _ _ He Hi) as C. discriminate C.
+  - exists []. split; [|reflexivity]. apply andb_true_iff in He as [He _].
+    destruct e as [|x e']; [discriminate|]. apply N.eqb_eq in He. subst x.
+    rewrite (split_once_byte_notin SEMI sz e' Hs). now rewrite app_nil_r.
+Qed.
+
+Lemma size_line_int16 sz e : sz <> [] -> forallb is_hex sz = true -> ext_ok e = true ->
+  int16 (before_semi (sz ++ e)) = Ok (Z.of_N (hexval sz)).
+Proof.
+  intros Hne Hh He. destruct (before_semi_size sz e Hh He) as (pad & -> & Hp).
+  now apply int16_hex.
+Qed.
+
+Lemma size_line_strip sz e : sz <> [] -> forallb is_hex sz = true -> strip (sz ++ e) <> [].
+Proof.
+  intros Hne Hh. destruct sz as [|x t]; [congruence|].
+  apply (strip_nonempty_of_nws x); [now left|]. apply is_hex_not_ws.
+  cbn [forallb] in Hh. now apply andb_true_iff in Hh as [? _].
+Qed.
+
+Lemma size_line_crlf_free sz e : forallb is_hex sz = true -> ext_ok e = true -> crlf_free (sz ++ e).
+Proof.
+  intros Hh He. apply crlf_free_no_lf. intros Hi. apply in_app_or in Hi as [Hi|Hi].
+  - now apply (hex_no_lf sz).
+  - now apply (ext_ok_no_lf e).
+Qed.
+
+Lemma nonempty_ne l : nonempty l = true -> l <> [].
+Proof. destruct l; [discriminate|discriminate]. Qed.
+
+Definition item_of (c : chunk) : chunk_item :=
+  {| ci_line := ck_size c ++ ck_ext c; ci_data := ck_data c |}.
+
+Lemma wf_chunk_item c : wf_chunk c = true -> item_ok (item_of c).
+Proof.
+  unfold wf_chunk. intros H.
+  apply andb_true_iff in H as [H Hlen]. apply andb_true_iff in H as [H Hd].
+  apply andb_true_iff in H as [H He]. apply andb_true_iff in H as [Hn Hh].
+  apply nonempty_ne in Hn, Hd. apply N.eqb_eq in Hlen.
+  unfold item_ok, item_of. cbn [ci_line ci_data]. repeat split.
+  - now apply size_line_crlf_free.
+  - now apply size_line_strip.
+  - exact Hd.
+  - rewrite size_line_int16 by assumption. rewrite Hlen. unfold len. now rewrite nat_N_Z.
+Qed.
+
+Lemma hexval_zeros l : forallb (fun x => x =? 48) l = true -> forallb is_hex l = true /\ hexval l = 0.
+Proof.
+  unfold hexval. induction l as [|x t IH]; intros H; [split; reflexivity|].
+  cbn [forallb] in H. apply andb_true_iff in H as [Hx Ht]. apply N.eqb_eq in Hx. subst x.
+  destruct (IH Ht) as [I1 I2]. split.
+  - cbn [forallb]. now rewrite I1.
+  - cbn [fold_left]. exact I2.
+Qed.
+
+Lemma is_tchar_not_lf x : is_tchar x = true -> x <> LF.
+Proof. intros H E. subst. discriminate H. Qed.
+Lemma is_field_byte_not_lf x : is_field_byte x = true -> x <> LF.
+Proof. intros H E. subst. discriminate H. Qed.
+
+Lemma parse_field_line_inv line name v :
+  parse_field_line line = Some (name, v) ->
+  exists v0, line = name ++ COLON :: v0 /\ is_token name = true /\ forallb is_field_byte v0 = true /\
+             v = trim_ows v0.
+Proof.
+  unfold parse_field_line. destruct (split_once [COLON] line) as [[n v0]|] eqn:E; [|discriminate].
+  destruct (is_token n && forallb is_field_byte v0) eqn:C; [|discriminate].
+  intros H. inversion H; subst. apply andb_true_iff in C as [C1 C2].
+  exists v0. repeat split; try assumption. apply split_once_sound in E. exact E.
+Qed.
+
+Lemma wf_field_line_trailer t : wf_field_line t = true -> trailer_ok t.
+Proof.
+  unfold wf_field_line. destruct (parse_field_line t) as [[n v]|] eqn:E; [|discriminate]. intros _.
+  destruct (parse_field_line_inv _ _ _ E) as (v0 & -> & Ht & Hv & _).
+  unfold is_token in Ht. apply andb_true_iff in Ht as [_ Ht].
+  split.
+  - apply crlf_free_no_lf. intros Hi. apply in_app_or in Hi as [Hi|[Hi|Hi]].
+    + now apply (is_tchar_not_lf LF (forallb_In _ _ _ Ht Hi)).
+    + discriminate Hi.
+    + now apply (is_field_byte_not_lf LF (forallb_In _ _ _ Hv Hi)).
+  - intros C. apply app_eq_nil in C. destruct C as [_ C]. discriminate C.
+Qed.
+
+Definition stream_of (s : chunked) : chunk_stream :=
+  {| cs_items := map item_of (ch_chunks s);
+     cs_last := ch_last_size s ++ ch_last_ext s;
+     cs_trailers := ch_trailers s |}.
+
+Lemma render_stream_of s : render_stream (stream_of s) = render_chunked s.
+Proof.
+  unfold render_stream, render_chunked, stream_of, render_items, render_trailers.
+  cbn [cs_items cs_last cs_trailers]. rewrite map_map.
+  rewrite (map_ext (fun x => render_item (item_of x)) render_chunk).
+  - now rewrite <- !app_assoc.
+  - intros c. unfold render_item, item_of, render_chunk. cbn [ci_line ci_data]. now rewrite <- !app_assoc.
+Qed.
+
+Lemma stream_body_of s : stream_body (stream_of s) = ref_dechunk s.
+Proof. unfold stream_body, stream_of, ref_dechunk. cbn [cs_items]. now rewrite map_map. Qed.
+
+Lemma wf_chunked_stream_ok s : wf_chunked s = true -> stream_ok (stream_of s).
+Proof.
+  unfold wf_chunked. intros H.
+  apply andb_true_iff in H as [H Ht]. apply andb_true_iff in H as [H He].
+  apply andb_true_iff in H as [H Hz]. apply andb_true_iff in H as [Hc Hn].
+  apply nonempty_ne in Hn. destruct (hexval_zeros _ Hz) as [Hh Hv].
+  unfold stream_ok, stream_of. cbn [cs_items cs_last cs_trailers]. repeat split.
+  - apply Forall_forall. intros it Hi. apply in_map_iff in Hi as (c & <- & Hc').
+    apply wf_chunk_item. exact (forallb_In _ _ _ Hc Hc').
+  - now apply size_line_crlf_free.
+  - now apply size_line_strip.
+  - rewrite size_line_int16 by assumption. now rewrite Hv.
+  - apply Forall_forall. intros t Hi. apply wf_field_line_trailer. exact (forallb_In _ _ _ Ht Hi).
+Qed.
+
+(* C15_dechunk_agrees_ref, on the abstract syntax: the model decoder returns the reference body and
+   hands back whatever follows the stream, for every valid chunked stream *)
+Theorem dechunk_agrees_ref s t : wf_chunked s = true ->
+  chunk_parse new_chunkp (render_chunked s ++ t) = Ok (t, complete_state (ref_dechunk s)).
+Proof.
+  intros H. rewrite <- render_stream_of, <- stream_body_of.
+  apply chunk_complete_at_end. now apply wf_chunked_stream_ok.
+Qed.
+
+(* ------------------------------------------------------------------------------------- *)
+(* the executable recogniser is sound for the grammar                                     *)
+
+Lemma span_hex_spec l a r : span_hex l = (a, r) -> l = a ++ r /\ forallb is_hex a = true.
+Proof.
+  revert a r; induction l as [|x t IH]; intros a r; cbn [span_hex].
+  - intros H. inversion H. split; reflexivity.
+  - destruct (is_hex x) eqn:E.
+    + destruct (span_hex t) as [a' r']. intros H. inversion H; subst.
+      destruct (IH a' r eq_refl) as [-> Ha]. split; [reflexivity|]. cbn [forallb]. now rewrite E.
+    + intros H. inversion H. split; reflexivity.
+Qed.
+
+Lemma parse_size_line_inv line n sz ext : parse_size_line line = Some (n, sz, ext) ->
+  line = sz ++ ext /\ nonempty sz = true /\ forallb is_hex sz = true /\ ext_ok ext = true /\ n = hexval sz.
+Proof.
+  unfold parse_size_line. destruct (span_hex line) as [a r] eqn:E.
+  destruct (nonempty a && ext_ok r) eqn:C; [|discriminate].
+  intros H. inversion H; subst. apply andb_true_iff in C as [C1 C2].
+  destruct (span_hex_spec _ _ _ E) as [-> Ha]. repeat split; assumption.
+Qed.
+
+Lemma parse_trailers_sound f : forall raw ts r, parse_trailers f raw = Some (ts, r) ->
+  forallb wf_field_line ts = true /\ raw = concat (map (fun t => t ++ CRLF) ts) ++ CRLF ++ r.
+Proof.
+  induction f as [|f IH]; intros raw ts r; cbn [parse_trailers]; [discriminate|].
+  destruct (split_once CRLF raw) as [[line rest]|] eqn:E; [|discriminate].
+  apply split_once_sound in E. destruct line as [|x l'].
+  - intros H. inversion H; subst. split; reflexivity.
+  - destruct (wf_field_line (x :: l')) eqn:W; [|discriminate].
+    destruct (parse_trailers f rest) as [[ts' r']|] eqn:P; [|discriminate].
+    intros H. inversion H; subst. destruct (IH _ _ _ P) as [I1 I2]. split.
+    + cbn [forallb]. now rewrite W, I1.
+    + cbn [map concat]. rewrite I2. now rewrite <- !app_assoc.
+Qed.
+
+Lemma hex_step_zero l : forall a, forallb is_hex l = true -> fold_left hex_step l a = 0 ->
+  a = 0 /\ forallb (fun x => x =? 48) l = true.
+Proof.
+  induction l as [|x t IH]; intros a Hh Hz; [split; [exact Hz|reflexivity]|].
+  cbn [forallb] in Hh. apply andb_true_iff in Hh as [Hx Ht]. cbn [fold_left] in Hz.
+  destruct (IH _ Ht Hz) as [I1 I2]. unfold hex_step in I1.
+  assert (a = 0 /\ hex_digit_val x = 0) as [Ha Hd] by lia. split; [exact Ha|].
+  cbn [forallb]. rewrite I2, andb_true_r. apply N.eqb_eq.
+  pose proof (is_hex_range _ Hx) as Hr. unfold hex_digit_val, is_digit in Hd.
+  destruct Hr as [Hr|[Hr|Hr]].
+  - replace ((48 <=? x) && (x <=? 57)) with true in Hd
+      by (symmetry; apply andb_true_iff; split; apply N.leb_le; lia). lia.
+  - replace ((48 <=? x) && (x <=? 57)) with false in Hd
+      by (symmetry; apply andb_false_iff; right; apply N.leb_gt; lia).
+    replace (97 <=? x) with true in Hd by (symmetry; apply N.leb_le; lia). lia.
+  - replace ((48 <=? x) && (x <=? 57)) with false in Hd
+      by (symmetry; apply andb_false_iff; right; apply N.leb_gt; lia).
+    replace (97 <=? x) with false in Hd by (symmetry; apply N.leb_gt; lia). lia.
+Qed.
+
+Lemma parse_chunked_sound f : forall raw s r, parse_chunked f raw = Some (s, r) ->
+  wf_chunked s = true /\ raw = render_chunked s ++ r.
+Proof.
+  induction f as [|f IH]; intros raw s r; cbn [parse_chunked]; [discriminate|].
+  destruct (split_once CRLF raw) as [[line rest]|] eqn:E; [|discriminate].
+  apply split_once_sound in E.
+  destruct (parse_size_line line) as [[[n sz] ext]|] eqn:P; [|discriminate].
+  destruct (parse_size_line_inv _ _ _ _ P) as (-> & Hn & Hh & He & ->).
+  destruct (N.eqb_spec (hexval sz) 0) as [Z|NZ].
+  - destruct (parse_trailers (S (length rest)) rest) as [[ts r']|] eqn:T; [|discriminate].
+    intros H. inversion H; subst. destruct (parse_trailers_sound _ _ _ _ T) as [T1 T2]. split.
+    + unfold wf_chunked. cbn [ch_chunks ch_last_size ch_last_ext ch_trailers forallb].
+      rewrite Hn, He, T1. cbn [andb]. rewrite andb_true_r.
+      unfold hexval in Z. now destruct (hex_step_zero _ _ Hh Z) as [_ ->].
+    + unfold render_chunked. cbn [ch_chunks ch_last_size ch_last_ext ch_trailers map concat app].
+      rewrite T2. now rewrite <- !app_assoc.
+  - destruct (N.leb_spec (hexval sz) (len rest)) as [L|L]; [|discriminate].
+    destruct (is_prefix CRLF (drop (hexval sz) rest)) eqn:Pfx; [|discriminate].
+    destruct (parse_chunked f (skipn 2 (drop (hexval sz) rest))) as [[s' r']|] eqn:R; [|discriminate].
+    intros H. inversion H; subst. destruct (IH _ _ _ R) as [I1 I2].
+    assert (Hlen : len (take (hexval sz) rest) = hexval sz).
+    { rewrite take_firstn. unfold len. rewrite firstn_length. unfold len in L. lia. }
+    split.
+    + unfold wf_chunked in *. cbn [ch_chunks ch_last_size ch_last_ext ch_trailers forallb].
+      unfold wf_chunk at 1. cbn [ck_size ck_ext ck_data]. rewrite Hn, Hh, He, Hlen, N.eqb_refl.
+      replace (nonempty (take (hexval sz) rest)) with true; [exact I1|].
+      symmetry. destruct (take (hexval sz) rest); [|reflexivity]. cbn in Hlen. congruence.
+    + unfold render_chunked. cbn [ch_chunks ch_last_size ch_last_ext ch_trailers map concat].
+      unfold render_chunk at 1. cbn [ck_size ck_ext ck_data].
+      apply is_prefix_skipn in Pfx. change (length CRLF) with 2%nat in Pfx.
+      rewrite <- (take_drop (hexval sz) rest) at 1. rewrite Pfx, I2.
+      unfold render_chunked. now rewrite <- !app_assoc.
+Qed.
+
+(* C15_dechunk_agrees_ref, on bytes: wherever the executable reference decoder accepts a prefix of
+   the input, the model decoder completes with the same body and the same remainder *)
+Theorem dechunk_agrees_ref_bytes raw body rest : ref_dechunk_bytes raw = Some (body, rest) ->
+  chunk_parse new_chunkp raw = Ok (rest, complete_state body).
+Proof.
+  unfold ref_dechunk_bytes. destruct (parse_chunked (S (length raw)) raw) as [[s r]|] eqn:E; [|discriminate].
+  intros H. inversion H; subst. destruct (parse_chunked_sound _ _ _ _ E) as [W ->].
+  now apply dechunk_agrees_ref.
+Qed.
+
+Lemma is_chunked_body_inv raw : is_chunked_body raw = true ->
+  exists s, wf_chunked s = true /\ raw = render_chunked s /\ ref_dechunk_bytes raw = Some (ref_dechunk s, []).
+Proof.
+  unfold is_chunked_body, ref_dechunk_bytes.
+  destruct (parse_chunked (S (length raw)) raw) as [[s r]|] eqn:E; [|discriminate].
+  destruct r; [|discriminate]. intros _. destruct (parse_chunked_sound _ _ _ _ E) as [W R].
+  exists s. rewrite app_nil_r in R. repeat split; assumption.
+Qed.
+
+(* ------------------------------------------------------------------------------------- *)
+(* to_chunks emits a stream of the grammar                                                *)
+
+Fixpoint chunks_of_aux (fuel k : nat) (raw : bytes) : list chunk :=
+  match fuel with
+  | O => []
+  | S f => match raw with
+           | [] => []
+           | _ => {| ck_size := hex_of_N (len (firstn k raw)); ck_ext := []; ck_data := firstn k raw |}
+                  :: chunks_of_aux f k (skipn k raw)
+           end
+  end.
+Definition chunks_of (raw : bytes) (k : N) : chunked :=
+  {| ch_chunks := chunks_of_aux (length raw) (N.to_nat k) raw;
+     ch_last_size := [48]; ch_last_ext := []; ch_trailers := [] |}.
+
+Lemma to_chunks_aux_render f k : forall raw,
+  to_chunks_aux f k raw = concat (map render_chunk (chunks_of_aux f k raw)).
+Proof.
+  induction f as [|f IH]; intros raw; [reflexivity|].
+  cbn [to_chunks_aux chunks_of_aux]. destruct raw as [|x t]; [reflexivity|].
+  cbn [map concat]. rewrite IH. unfold render_chunk. cbn [ck_size ck_ext ck_data app].
+  now rewrite <- !app_assoc.
+Qed.
+
+Lemma to_chunks_render raw k : 0 < k -> to_chunks raw k = Ok (render_chunked (chunks_of raw k)).
+Proof.
+  intros Hk. unfold to_chunks. destruct (N.eqb_spec k 0); [lia|].
+  unfold render_chunked, chunks_of. cbn [ch_chunks ch_last_size ch_last_ext ch_trailers map concat app].
+  now rewrite to_chunks_aux_render.
+Qed.
+
+Lemma base_digit_16_hex x : base_digit 16 x -> is_hex x = true /\ hex_digit_val x = char_val x.
+Proof.
+  intros (d & Hd & ->). unfold digit_char, is_hex, hex_digit_val, char_val, is_digit.
+  destruct (N.ltb_spec d 10) as [L|L].
+  - replace ((48 <=? 48 + d) && (48 + d <=? 57)) with true
+      by (symmetry; apply andb_true_iff; split; apply N.leb_le; lia). split; reflexivity.
+  - replace ((48 <=? 87 + d) && (87 + d <=? 57)) with false
+      by (symmetry; apply andb_false_iff; right; apply N.leb_gt; lia).
+    replace ((97 <=? 87 + d) && (87 + d <=? 102)) with true
+      by (symmetry; apply andb_true_iff; split; apply N.leb_le; lia).
+    replace (97 <=? 87 + d) with true by (symmetry; apply N.leb_le; lia).
+    split; reflexivity.
+Qed.
+
+Lemma hex_of_N_spec n :
+  hex_of_N n <> [] /\ forallb is_hex (hex_of_N n) = true /\ hexval (hex_of_N n) = n.
+Proof.
+  destruct (to_base_spec 16 n ltac:(lia) ltac:(lia)) as (ds & E & Hne & Hd & Hv).
+  unfold hex_of_N. rewrite E. repeat split; [exact Hne| |].
+  - apply forallb_forall. intros x Hx. rewrite Forall_forall in Hd. now apply base_digit_16_hex, Hd.
+  - rewrite <- Hv. unfold hexval, base_val. clear Hv Hne E.
+    generalize 0. induction ds as [|x t IH]; intros a; [reflexivity|].
+    inversion Hd; subst. cbn [fold_left].
+    destruct (base_digit_16_hex x) as [_ ->]; [assumption|]. now apply IH.
+Qed.
+
+Lemma chunks_of_aux_wf f k : (0 < k)%nat -> forall raw,
+  forallb wf_chunk (chunks_of_aux f k raw) = true.
+Proof.
+  intros Hk. induction f as [|f IH]; intros raw; [reflexivity|].
+  cbn [chunks_of_aux]. destruct raw as [|x t]; [reflexivity|].
+  cbn [forallb]. rewrite IH, andb_true_r.
+  unfold wf_chunk. cbn [ck_size ck_ext ck_data].
+  destruct (hex_of_N_spec (len (firstn k (x :: t)))) as (H1 & H2 & H3).
+  rewrite H2, H3, N.eqb_refl.
+  destruct (hex_of_N (len (firstn k (x :: t)))); [congruence|].
+  destruct k as [|k']; [lia|]. reflexivity.
+Qed.
+
+Lemma chunks_of_aux_data f k : (0 < k)%nat -> forall raw, (length raw <= f)%nat ->
+  concat (map ck_data (chunks_of_aux f k raw)) = raw.
+Proof.
+  intros Hk. induction f as [|f IH]; intros raw Hl.
+  - destruct raw; [reflexivity|cbn in Hl; lia].
+  - cbn [chunks_of_aux]. destruct raw as [|x t]; [reflexivity|].
+    cbn [map concat ck_data]. rewrite IH.
+    + apply firstn_skipn.
+    + rewrite skipn_length. cbn [length] in *. lia.
+Qed.
+
+Lemma chunks_of_wf raw k : 0 < k -> wf_chunked (chunks_of raw k) = true.
+Proof.
+  intros Hk. unfold wf_chunked, chunks_of. cbn [ch_chunks ch_last_size ch_last_ext ch_trailers].
+  rewrite chunks_of_aux_wf by lia. reflexivity.
+Qed.
+
+Lemma chunks_of_dechunk raw k : 0 < k -> ref_dechunk (chunks_of raw k) = raw.
+Proof.
+  intros Hk. unfold ref_dechunk, chunks_of. cbn [ch_chunks]. apply chunks_of_aux_data; lia.
+Qed.
+
+(* C15_chunks_roundtrip: encoder and decoder are inverses for every body (empty included) and every
+   chunk size, and the decoder stops exactly at the end of the encoding *)
+Theorem chunks_roundtrip body k t : 0 < k ->
+  exists w, to_chunks body k = Ok w /\
+            chunk_parse new_chunkp (w ++ t) = Ok (t, complete_state body).
+Proof.
+  intros Hk. exists (render_chunked (chunks_of body k)). split; [now apply to_chunks_render|].
+  rewrite dechunk_agrees_ref by now apply chunks_of_wf. now rewrite chunks_of_dechunk.
+Qed.
+
+(* the encoder's output is a chunked stream for the reference grammar too *)
+Theorem to_chunks_valid body k : 0 < k ->
+  exists s, wf_chunked s = true /\ to_chunks body k = Ok (render_chunked s) /\ ref_dechunk s = body.
+Proof.
+  intros Hk. exists (chunks_of body k).
+  repeat split; [now apply chunks_of_wf|now apply to_chunks_render|now apply chunks_of_dechunk].
+Qed.
